@@ -891,11 +891,11 @@ Proof.
   constructor; cbn [m_fs m_cur m_next m_ver man_del set_tmp set_current man_set f_current f_man f_tmp]; try assumption.
   - reflexivity.
   - apply Nsorted_remove. now apply Nsorted_upsert.
-  - exists (snapshot_edits (m_ver m)). unfold man_get. cbn [f_man].
+  - exists (snapshot_edits (m_ver m)). unfold man_get, man_del, set_tmp, set_current, man_set. cbn [f_man f_current f_tmp].
     rewrite Nlookup_remove by now apply Nsorted_upsert.
     replace (m_next m =? m_cur m) with false by lia. rewrite Nlookup_upsert, N.eqb_refl.
     split; [reflexivity|]. split; [now apply snapshot_edits_ok|]. now apply snapshot_version_eq.
-  - intros id H. unfold man_get. cbn [f_man]. rewrite Nlookup_remove by now apply Nsorted_upsert.
+  - intros id H. unfold man_get, man_del, set_tmp, set_current, man_set. cbn [f_man f_current f_tmp]. rewrite Nlookup_remove by now apply Nsorted_upsert.
     destruct (id =? m_cur m); [reflexivity|]. rewrite Nlookup_upsert.
     replace (id =? m_next m) with false by lia. apply Hfree. lia.
   - lia.
@@ -935,3 +935,192 @@ Proof.
   exists (apply_all empty_version ds). split; [|exact Hq].
   unfold reload. rewrite (mi_cur _ _ Hm), Hg. now apply replay_enc.
 Qed.
+
+(** * 9. Crash states *)
+
+(** a torn tail: nothing, or a proper non-empty prefix of one record *)
+Definition torn (tail : bytes) : Prop :=
+  tail = [] \/ exists e k, edit_ok e /\ 0 < k < blen (enc_edit e) /\ tail = take k (enc_edit e).
+
+Lemma take_app_le' n (a b : bytes) : n <= blen a -> take n (a ++ b) = take n a.
+Proof.
+  unfold take, blen. intro H. rewrite firstn_app.
+  replace (N.to_nat n - length a)%nat with 0%nat by lia. simpl. now rewrite app_nil_r.
+Qed.
+
+Lemma take_app_ge' n (a b : bytes) : blen a <= n -> take n (a ++ b) = a ++ take (n - blen a) b.
+Proof.
+  unfold take, blen. intro H. rewrite firstn_app. rewrite firstn_all2 by lia. f_equal. f_equal. lia.
+Qed.
+
+Lemma take_nil n : take n (@nil Init.Byte.byte) = [].
+Proof. unfold take. apply firstn_nil. Qed.
+
+Lemma take_enc_all es : forall c,
+  Forall edit_ok es ->
+  exists j tail, (j <= length es)%nat /\ take c (enc_all es) = enc_all (firstn j es) ++ tail /\ torn tail.
+Proof.
+  induction es as [|e es IH]; intros c Hok.
+  - exists 0%nat, []. split; [simpl; lia|]. split; [apply take_nil|now left].
+  - inversion Hok as [|? ? He Hes]; subst. rewrite enc_all_cons.
+    destruct (blen (enc_edit e) <=? c) eqn:E.
+    + rewrite take_app_ge' by lia. destruct (IH (c - blen (enc_edit e)) Hes) as [j [tail (Hj & Ht & Htorn)]].
+      exists (S j), tail. split; [simpl; lia|]. split; [|exact Htorn].
+      cbn [firstn]. rewrite enc_all_cons, Ht. now rewrite app_assoc.
+    + rewrite take_app_le' by lia. destruct (N.eq_dec c 0) as [->|Hc].
+      * exists 0%nat, []. split; [simpl; lia|]. split; [reflexivity|now left].
+      * exists 0%nat, (take c (enc_edit e)). split; [simpl; lia|]. split; [reflexivity|].
+        right. exists e, c. split; [exact He|]. split; [lia|reflexivity].
+Qed.
+
+Lemma rd_le32_short bs : (length bs < 4)%nat -> rd_le32 bs = None.
+Proof. destruct bs as [|a [|b [|c [|d bs]]]]; simpl; intro H; try reflexivity; lia. Qed.
+
+Lemma blen_enc_edit e : blen (enc_edit e) = 4 + blen (enc_edit_payload e).
+Proof. unfold enc_edit. now rewrite blen_app. Qed.
+
+Lemma verify_scan_tail fuel off tail : torn tail -> verify_scan (S fuel) off tail = Some off.
+Proof.
+  intros [->|[e [k (He & Hk & ->)]]]; [reflexivity|]. destruct He as [Hb Hl].
+  cbn [verify_scan]. rewrite blen_enc_edit in Hk.
+  destruct (k <? 4) eqn:E4.
+  - rewrite rd_le32_short; [reflexivity|].
+    assert (H : blen (take k (enc_edit e)) = k) by (apply blen_take; rewrite blen_enc_edit; lia).
+    unfold blen in H. lia.
+  - unfold enc_edit. rewrite take_app_ge' by (cbn; lia). rewrite rd_le32_le32, N.mod_small by exact Hl.
+    change (drop 4 (le32 ?n ++ ?r)) with r. change (blen (le32 _)) with 4.
+    rewrite blen_take by lia.
+    destruct (k - 4 <? blen (enc_edit_payload e)) eqn:E; [reflexivity|lia].
+Qed.
+
+Lemma verify_scan_enc es : forall fuel off tail,
+  Forall edit_ok es -> (length es < fuel)%nat -> torn tail ->
+  verify_scan fuel off (enc_all es ++ tail) = Some (off + blen (enc_all es)).
+Proof.
+  induction es as [|e es IH]; intros fuel off tail Hok Hf Ht.
+  - destruct fuel as [|f]; [simpl in Hf; lia|]. cbn [enc_all map concat app]. rewrite blen_nil, N.add_0_r.
+    now apply verify_scan_tail.
+  - inversion Hok as [|? ? He Hes]; subst. destruct fuel as [|f]; [simpl in Hf; lia|].
+    destruct He as [Hb Hl]. rewrite enc_all_cons, <- app_assoc. unfold enc_edit at 1. rewrite <- app_assoc.
+    cbn [verify_scan]. rewrite rd_le32_le32, N.mod_small by exact Hl.
+    change (drop 4 (le32 ?n ++ ?r)) with r.
+    destruct (blen (enc_edit_payload e ++ enc_all es ++ tail) <? blen (enc_edit_payload e)) eqn:E;
+      [rewrite blen_app in E; lia|].
+    rewrite take_app_exact, drop_app_exact, decode_edit_enc by exact Hb.
+    rewrite IH by (auto; simpl in Hf; lia). f_equal. rewrite blen_app, blen_enc_edit. lia.
+Qed.
+
+Lemma verify_bytes_enc es tail :
+  Forall edit_ok es -> torn tail -> verify_bytes (enc_all es ++ tail) = Some (enc_all es).
+Proof.
+  intros Hok Ht. unfold verify_bytes. destruct (enc_all es ++ tail) as [|x l] eqn:E.
+  - apply app_eq_nil in E as [-> _]. reflexivity.
+  - rewrite <- E. rewrite verify_scan_enc; [|exact Hok| |exact Ht].
+    + rewrite N.add_0_l. now rewrite take_app_exact.
+    + rewrite app_length. pose proof (length_enc_all es). lia.
+Qed.
+
+Lemma recover_enc fs id es tail :
+  f_current fs = Some id -> man_get fs id = Some (enc_all es ++ tail) -> Forall edit_ok es -> torn tail ->
+  recover fs = RpOk (apply_all empty_version es).
+Proof.
+  intros Hc Hg Hok Ht. unfold recover. rewrite Hc, Hg, verify_bytes_enc by assumption. now apply replay_enc.
+Qed.
+
+Lemma hist_ok_firstn v es j : hist_ok v es -> hist_ok v (firstn j es).
+Proof.
+  intro H. rewrite <- (firstn_skipn j es) in H. now apply hist_ok_app in H as [H _].
+Qed.
+
+(** C15_crash_prefix, one LogEdits call after an arbitrary crash-free history *)
+Lemma crash_prefix_step m E batch fsc :
+  minv m E -> hist_ok (m_ver m) batch -> crash_fs m batch fsc ->
+  exists j v', (length E <= j <= length (E ++ batch))%nat /\
+               recover fsc = RpOk v' /\ version_eq v' (state_after (firstn j (E ++ batch))).
+Proof.
+  intros Hm Hh Hcr.
+  pose proof (minv_appended m E batch Hm Hh) as Hm1.
+  pose proof (new_id_next _ _ Hm1) as Hid.
+  assert (Hfull : forall fs, f_current fs = Some (m_cur m) ->
+            man_get fs (m_cur m) = man_get (m_fs (appended m batch)) (m_cur m) ->
+            exists j v', (length E <= j <= length (E ++ batch))%nat /\
+               recover fs = RpOk v' /\ version_eq v' (state_after (firstn j (E ++ batch)))).
+  { intros fs Hc Hg. destruct (mi_ds _ _ Hm1) as [ds (Hg1 & Hok & Hq & _)].
+    exists (length (E ++ batch)), (apply_all empty_version ds). split; [rewrite app_length; lia|]. split.
+    - eapply recover_enc with (id := m_cur m) (tail := []); [exact Hc| |exact Hok|now left].
+      rewrite Hg, app_nil_r. exact Hg1.
+    - rewrite firstn_all. rewrite <- (mi_ver _ _ Hm1). exact Hq. }
+  destruct (mi_ds _ _ Hm) as [ds (Hg & Hok & Hq & Hn)].
+  destruct (state_winv E (mi_hist _ _ Hm)) as [HwV HnV]. rewrite <- (mi_ver _ _ Hm) in HwV, HnV.
+  inversion Hcr as [c|c Hr|t Hr|Hr|Hr]; subst fsc.
+  - (* torn append *)
+    destruct (take_enc_all batch c (hist_ok_edits _ _ Hh)) as [j [tail (Hj & Ht & Htorn)]].
+    exists (length E + j)%nat, (apply_all empty_version (ds ++ firstn j batch)).
+    split; [rewrite app_length; lia|]. split.
+    + eapply recover_enc with (id := m_cur m) (tail := tail).
+      * exact (mi_cur _ _ Hm).
+      * rewrite man_get_set, N.eqb_refl. unfold cur_bytes. rewrite Hg, Ht, enc_all_app. now rewrite app_assoc.
+      * apply Forall_app. split; [exact Hok|]. eapply hist_ok_edits. apply hist_ok_firstn. exact Hh.
+      * exact Htorn.
+    + rewrite firstn_app_2. unfold state_after. rewrite !apply_all_app. fold (state_after E).
+      rewrite <- (mi_ver _ _ Hm).
+      destruct (version_eq_apply_all (firstn j batch) (m_ver m) (apply_all empty_version ds)
+                  (version_eq_sym _ _ Hq) HnV Hn (hist_ok_firstn _ _ j Hh)) as [Hq' _].
+      now apply version_eq_sym.
+  - (* snapshot being written: CURRENT still names the old manifest *)
+    apply Hfull.
+    + cbn [man_set f_current]. exact (mi_cur _ _ Hm1).
+    + rewrite man_get_set. rewrite Hid. cbn [appended m_next m_cur]. pose proof (mi_lt _ _ Hm).
+      replace (m_cur m =? m_next m) with false by lia. reflexivity.
+  - (* CURRENT.tmp written *)
+    apply Hfull.
+    + cbn [set_tmp man_set f_current]. exact (mi_cur _ _ Hm1).
+    + unfold man_get at 1. cbn [set_tmp f_man]. fold (man_get (man_set (m_fs (appended m batch)) (new_id (appended m batch))
+        (enc_all (snapshot_edits (m_ver (appended m batch))))) (m_cur m)).
+      rewrite man_get_set. rewrite Hid. cbn [appended m_next m_cur]. pose proof (mi_lt _ _ Hm).
+      replace (m_cur m =? m_next m) with false by lia. reflexivity.
+  - (* renamed: CURRENT names the snapshot *)
+    destruct (state_winv (E ++ batch) (mi_hist _ _ Hm1)) as [Hw1 Hn1]. rewrite <- (mi_ver _ _ Hm1) in Hw1, Hn1.
+    exists (length (E ++ batch)), (apply_all empty_version (snapshot_edits (m_ver (appended m batch)))).
+    split; [rewrite app_length; lia|]. split.
+    + eapply recover_enc with (id := new_id (appended m batch)) (tail := []).
+      * reflexivity.
+      * unfold man_get at 1. cbn [set_tmp set_current f_man].
+        fold (man_get (man_set (m_fs (appended m batch)) (new_id (appended m batch))
+               (enc_all (snapshot_edits (m_ver (appended m batch))))) (new_id (appended m batch))).
+        rewrite man_get_set, N.eqb_refl, app_nil_r. reflexivity.
+      * now apply snapshot_edits_ok.
+      * now left.
+    + rewrite firstn_all, <- (mi_ver _ _ Hm1). now apply snapshot_version_eq.
+  - (* old manifest removed *)
+    pose proof (minv_rewritten _ _ Hm1) as Hm2.
+    destruct (mi_ds _ _ Hm2) as [ds2 (Hg2 & Hok2 & Hq2 & _)].
+    exists (length (E ++ batch)), (apply_all empty_version ds2). split; [rewrite app_length; lia|]. split.
+    + eapply recover_enc with (id := m_cur (rewritten (appended m batch))) (tail := []).
+      * exact (mi_cur _ _ Hm2).
+      * now rewrite app_nil_r.
+      * exact Hok2.
+      * now left.
+    + rewrite firstn_all, <- (mi_ver _ _ Hm2). exact Hq2.
+Qed.
+
+(** C15_crash_prefix from a fresh directory *)
+Lemma crash_prefix thr batches batch fsc :
+  hist_ok empty_version (concat batches ++ batch) ->
+  crash_fs (log_all (create_new thr) batches) batch fsc ->
+  exists j v', (length (concat batches) <= j <= length (concat batches ++ batch))%nat /\
+               recover fsc = RpOk v' /\ version_eq v' (state_after (firstn j (concat batches ++ batch))).
+Proof.
+  intros Hh Hcr. apply hist_ok_app in Hh as [H1 H2].
+  pose proof (minv_log_all batches (create_new thr) [] (minv_create thr) H1) as Hm. cbn [app] in Hm.
+  eapply crash_prefix_step; eauto. rewrite (mi_ver _ _ Hm). exact H2.
+Qed.
+
+(** non-vacuity: a history with a rewrite *)
+Lemma manifest_example :
+  let f := {| fm_level := 0; fm_id := 7; fm_size := 100; fm_smallest := []; fm_largest := []; fm_created := 1;
+              fm_vsize := 0; fm_ingest := false |} in
+  let bs := [[EAddFile f; ELogPointer 3 9]; [ELogPointer 4 10]] in
+  needs_rewrite (appended (create_new 20) (hd [] bs)) = true /\
+  reload (m_fs (log_all (create_new 20) bs)) = RpOk (m_ver (log_all (create_new 20) bs)).
+Proof. cbn zeta. split; vm_compute; reflexivity. Qed.
